@@ -281,6 +281,13 @@ func (f *fakeHijacker) Hijack() (net.Conn, *bufio.ReadWriter, error) {
 	return conn, bufio.NewReadWriter(bufio.NewReader(bytes.NewReader(nil)), bufio.NewWriter(conn)), nil
 }
 
+// h09Wrap: the ResponseWriter handed to the HTTP upgraders is wrapped (kind H09W)
+var h09Wrap bool
+
+type unwrapRW struct{ http.ResponseWriter }
+
+func (u unwrapRW) Unwrap() http.ResponseWriter { return u.ResponseWriter }
+
 func h09(c *ctx, api, method string, major, minor int, host string, hdr []hmEntry, cfgHdr []hmEntry,
 	proto, ext *[]string, neg *[]negEntry) {
 	r := &http.Request{Method: method, ProtoMajor: major, ProtoMinor: minor, Host: host, Header: toHTTPHeader(hdr)}
@@ -288,6 +295,14 @@ func h09(c *ctx, api, method string, major, minor int, host string, hdr []hmEntr
 		r.Header = http.Header{}
 	}
 	w := &fakeHijacker{out: &bytes.Buffer{}, hdr: http.Header{}}
+	var rw http.ResponseWriter = w
+	kind := "H09"
+	if h09Wrap {
+		// the usual middleware shape: a struct embedding the ResponseWriter (which does NOT promote Hijack) that offers
+		// Unwrap, the way http.ResponseController finds the Hijacker since Go 1.20
+		rw = unwrapRW{w}
+		kind = "H09W"
+	}
 	u := ws.HTTPUpgrader{Header: toHTTPHeader(cfgHdr)}
 	if proto != nil {
 		set := *proto
@@ -316,9 +331,9 @@ func h09(c *ctx, api, method string, major, minor int, host string, hdr []hmEntr
 			}
 		}()
 		if api == "ws" {
-			_, _, hs, err = ws.UpgradeHTTP(r, w)
+			_, _, hs, err = ws.UpgradeHTTP(r, rw)
 		} else {
-			_, _, hs, err = u.Upgrade(r, w)
+			_, _, hs, err = u.Upgrade(r, rw)
 		}
 		cls = upgradeErrClass(err)
 	}()
@@ -337,7 +352,7 @@ func h09(c *ctx, api, method string, major, minor int, host string, hdr []hmEntr
 			}
 		}
 	}
-	c.emit("H09 %s %s %d %d %s %s %s %s %s %s %s %s t=%s -> %s %s %s %s", api, hx([]byte(method)), major, minor,
+	c.emit(kind+" %s %s %d %d %s %s %s %s %s %s %s %s t=%s -> %s %s %s %s", api, hx([]byte(method)), major, minor,
 		hx([]byte(host)), encHeaderMap(hdr), encHeaderMap(cfgHdr), encSet(proto), encSet(ext), encNeg(neg),
 		hx(hb.Bytes()), encStatusTexts(codes...), tag,
 		cls, hx([]byte(hs.Protocol)), encOpts(hs.Extensions), hx(w.out.Bytes()))
